@@ -109,8 +109,8 @@ def sliding_pwc(classes, ml, cm, seed, **kw):
 
 @_c("sliding_pwc_cls")
 def sliding_pwc_cls(classes, ml, cm, seed, **kw):
-    # the wrapped classifier declares the classes as well, the cost matrix is given to the wrapper only
-    inner = ParzenWindowClassifier(metric_dict={"gamma": 0.05}, classes=classes, missing_label=ml, random_state=0)
+    # the wrapped classifier declares the classes as well, the cost matrix and the random state are given to the wrapper only
+    inner = ParzenWindowClassifier(metric_dict={"gamma": 0.05}, classes=classes, missing_label=ml)
     return SlidingWindowClassifier(inner, classes=classes, missing_label=ml, cost_matrix=cm,
                                    window_size=kw.pop("window_size", 8), random_state=seed, **kw)
 
